@@ -54,7 +54,7 @@ NoHk == [ev |-> "", seq |-> <<>>, i |-> 0, j |-> 0, rev |-> 0, defs |-> <<>>, ok
 
 NoU == [kind |-> "none", chart |-> "none", replace |-> FALSE, atomic |-> FALSE, cleanup |-> FALSE,
         keep |-> FALSE, nohooks |-> FALSE, lim |-> 0, ver |-> 0, dry |-> FALSE, takeown |-> FALSE,
-        clientOnly |-> FALSE, createNS |-> FALSE, skipCRDs |-> FALSE]
+        clientOnly |-> FALSE, createNS |-> FALSE, skipCRDs |-> FALSE, force |-> FALSE]
 
 NoOp == [u |-> NoU,
          keep |-> FALSE, nohooks |-> FALSE, ver |-> 0, lim |-> 0, cleanup |-> FALSE,
@@ -421,7 +421,7 @@ K_Get(p) ==
                   [pc |-> "K_Post", op |-> [o EXCEPT !.created = @ \cup {r}]], KFail(o))
      ELSE IF r \notin DOMAIN o.curman
           THEN ResCall(p, "GET", r, TRUE, cluster, KFail([o EXCEPT !.kf = @ \cup {"L4"}]), KFail(o))   \* "no X with the name found" (L4)
-          ELSE ResCall(p, "GET", r, TRUE, cluster, [pc |-> "K_Get2", op |-> o], KFail(o))
+          ELSE ResCall(p, "GET", r, TRUE, cluster, [pc |-> IF o.u.force THEN "K_PutGet" ELSE "K_Get2", op |-> o], KFail(o))
 
 K_Post(p) ==
   /\ pc[p] = "K_Post" /\ Budgets
@@ -430,6 +430,23 @@ K_Post(p) ==
      THEN ResCall(p, "POST", r, FALSE, cluster, KFail(o), KFail(o))
      ELSE ResCall(p, "POST", r, TRUE, [cluster EXCEPT ![r] = NewObj(o.tgtman[r])],
                   KNext([o EXCEPT !.posted = @ \cup {r}]), KFail(o))
+
+\* --force: helper.Replace, the rendered object replaces the live one wholesale (no patch is computed)
+\* (resource.Helper.Replace with overwrite first fetches the live object for its resourceVersion)
+K_PutGet(p) ==
+  /\ pc[p] = "K_PutGet" /\ Budgets
+  /\ LET o == op[p]  r == Head(o.tseq)
+         errT == KNext([o EXCEPT !.uerr = TRUE]) IN
+     \* whatever the GET says, Replace goes on to the PUT ("the object does not exist, but we want it created")
+     ResCall(p, "GET", r, Present(r), cluster, [pc |-> "K_Put", op |-> o], [pc |-> "K_Put", op |-> o])
+
+K_Put(p) ==
+  /\ pc[p] = "K_Put" /\ Budgets
+  /\ LET o == op[p]  r == Head(o.tseq)
+         errT == KNext([o EXCEPT !.uerr = TRUE]) IN
+     IF ~Present(r)
+     THEN ResCall(p, "PUT", r, FALSE, cluster, errT, errT)
+     ELSE ResCall(p, "PUT", r, TRUE, [cluster EXCEPT ![r] = NewObj(o.tgtman[r])], KNext(o), errT)
 
 \* createPatch reads the live object again
 K_Get2(p) ==
@@ -910,7 +927,7 @@ Edit == \E e \in EditMenu : EditWith(e) /\ cluster' # cluster
 
 CallStep(p) ==
   \/ H_DelBefore(p) \/ H_Record(p) \/ H_Create(p) \/ H_Watch(p) \/ H_DelFailed(p) \/ H_DelPrev(p) \/ H_DelSucc(p)
-  \/ K_Get(p) \/ K_Post(p) \/ K_Get2(p) \/ K_Patch(p) \/ K_Refresh(p) \/ K_DGet(p) \/ K_Del(p)
+  \/ K_Get(p) \/ K_Post(p) \/ K_PutGet(p) \/ K_Put(p) \/ K_Get2(p) \/ K_Patch(p) \/ K_Refresh(p) \/ K_DGet(p) \/ K_Del(p)
   \/ P_Hist(p) \/ P_Dep(p) \/ P_Del(p)
   \/ I_Name(p) \/ I_CRD(p) \/ I_CRDWait(p) \/ I_CreateNS(p) \/ I_Own(p) \/ I_ReplHist(p) \/ I_ReplUpdate(p) \/ I_Create(p) \/ I_CreateRes(p)
   \/ I_Wait(p) \/ I_Deployed(p) \/ I_FailRec(p)
